@@ -59,6 +59,8 @@ def run(prog, chk):
     chk.rule(_C04b.consumed, prog, chk)  # the generated text element keeps the presentation attributes and transform of a <text> carrier: nothing standard is consumed outside the reviewed places
     from props import geomalg as _ga
     chk.rule(_ga.check_extent_seeds, prog, chk)  # the box a label is anchored to is the box of the points as written
+    from props import C08 as _C08p
+    chk.rule(_C08p.path_relative_commands, prog, chk)  # the box a path's label is anchored to is the box of the path as drawn
 
 
 def carriers(prog, chk):
